@@ -140,6 +140,23 @@ def c04(chk, tier):
                      seq_over(AeadC=aead, Starts='"zero"', RecordHist=True, MaxSeals=6 if thorough else 4,
                               HistLen=5 + (6 if thorough else 4)),
                      invariants=["PrintHist"], on_value=onb, workers=1)
+        # 3b. the boundary transitions again on a build WITHOUT debug assertions and overflow checks (an application's
+        # release build): the latch and the carry must not live inside a debug_assert!
+        plain = Session(chk, profile="plain")
+        try:
+            aead = rot([1, 2, 3], 2)
+            batch = TransitionBatch(plain, exact_tags={"aeadct"}, label="seal transition, no debug assertions, aead=%d" % aead)
+
+            def onp(tr, batch=batch, aead=aead):
+                l = tr["last"]
+                if l["op"] == "seal":
+                    batch.add(tr)
+                    chk.case(("plain", aead, tuple(l["pre"]["seq"]), l["pre"]["ovf"], l["form"], l["kind"], l["err"]))
+            generate(chk, "MC_Seq", "MC_Seq.cfg", "gen_plain_%d" % aead,
+                     seq_over(AeadC=aead, Starts='"edge"', Emit=True, MaxSeals=2), invariants=[], on_value=onp, workers=4)
+            batch.run()
+        finally:
+            plain.close()
         # 4. long runs: an exhausted sender refuses 2^20+ times in a row, exports stay put (see also C05's long runs)
         sender_soak(chk, ses, (1 << 24) + 5 if thorough else (1 << 20) + (1 << 16) + 3)
         # ... and keeps sealing whatever the TOTAL number of bytes: 64 MiB in quick, past 2^32 bytes in thorough
@@ -205,6 +222,24 @@ def c05(chk, tier):
                      seq_over(AeadC=aead, Menu='"small"', Emit=True, Starts='"zero"', LenVar=11, MaxSeals=2, MaxOpens=1),
                      invariants=[], on_value=onl, workers=4, timeout=3600)
             batch.run()
+        # the boundary transitions again on a build without debug assertions and overflow checks
+        plain = Session(chk, profile="plain")
+        try:
+            aead = rot([1, 2, 3], 2)
+            batch = TransitionBatch(plain, label="open-transition, no debug assertions, aead=%d" % aead)
+
+            def onp(tr, aead=aead, batch=batch):
+                l = tr["last"]
+                if l["op"] == "open":
+                    batch.add(tr)
+                    d = l["plain"]["d"]
+                    chk.case(("tp", aead, d["k"], d["s"], tuple(l["pre"]["seq"]), l["pre"]["ovf"], l["form"], l["kind"], l["err"]))
+            generate(chk, "MC_Seq", "MC_Seq.cfg", "gen_trp_%d" % aead,
+                     seq_over(AeadC=aead, Menu='"small"', Emit=True, Starts='"edge"', MaxSeals=2, MaxOpens=1),
+                     invariants=[], on_value=onp, workers=4, timeout=3600)
+            batch.run()
+        finally:
+            plain.close()
         # a message sealed at position 0 must not open at any position 2^j (every single bit of the counter matters)
         for aead in (1, 2, 3):
             batch = TransitionBatch(ses, label="cross-position aead=%d" % aead)
@@ -994,7 +1029,19 @@ def adjacent_pass(chk, ses, recs, exact_tags, name, **kw):
         seq = ls + ls[-2::-1]
         ses.replay(seq, exact_tags=exact_tags, label=name + " (neighbours: one argument differs)", sample=(done == 0), **kw)
         done += 1
-    chk.case(("adjacent", name, done))
+    # ... and calls that hand the library an association it must not keep: an authenticated encapsulation with a
+    # sender pair (sk, pk) - matching or not - right before calls that use that sk as the recipient key
+    poison = [l for l in recs if l["op"] == "encap" and "sk_s" in (l.get("bytes") or {})]
+    npo = 0
+    for a in poison:
+        later = [l for l in recs if l["op"] in ("decap", "sk_to_pk")
+                 and (l["bytes"].get("sk_r") == a["bytes"]["sk_s"] or l["bytes"].get("sk") == a["bytes"]["sk_s"])
+                 and l["plain"] == a["plain"]]
+        for b in later[:6]:
+            ses.replay([a, b], exact_tags=exact_tags, label=name + " (after an encapsulation with that private key as sender key)",
+                       sample=False, **kw)
+            npo += 1
+    chk.case(("adjacent", name, done, npo))
 
 
 @prop("C03")
@@ -1707,7 +1754,7 @@ def c18_stress(chk, ses, reps, nthreads=16, hammer=0, ex=None):
                         ct = do({"op": "seal", "ctx": snd["ctx"], "form": "alloc", "pt": hx("pt%d-%d" % (t, k), 21), "aad": hx("aad%d" % t, 3)})["ct"]
                         do({"op": "open", "ctx": rcv["ctx"], "form": "alloc", "ct": ct, "aad": hx("aad%d" % t, 3)})
                 for c in (snd["ctx"], rcv["ctx"]):
-                    do({"op": "export", "ctx": c, "len": 32, "exporter_ctx": hx("ectx%d" % t, 4)})
+                    do({"op": "export", "ctx": c, "len": 32, "exporter_ctx": hx("ectx", 4)})
             except Failed:
                 return cmds, evs, (cmds[-1], evs[-1])
             return cmds, evs, None
@@ -1743,6 +1790,31 @@ def c18_stress(chk, ses, reps, nthreads=16, hammer=0, ex=None):
                                        "event_backward": ev, "fingerprint": "c18-order-" + cmd["op"]})
                         return False
         chk.case(("order", nthreads))
+        chk.trace_ok()
+        # many contexts in between: a session, 2^16 - 1 (then 2^16 - 2) contexts that come and go, the next session -
+        # whatever is numbered per context wraps around; the sessions after the crowd must answer as they do alone
+        with Executor() as ex3:
+            hist = []
+
+            def run(cmd):
+                hist.append(cmd)
+                return ex3.call(cmd)
+            order3 = [0, 1, 2]
+            for k, t in enumerate(order3):
+                if k:
+                    fill = dict(next(c for c in lists[0] if c["op"] == "setup_r"), ctx="crowd")
+                    ev = run({"op": "par", "threads": [[fill]], "reps": 65536 - k})
+                    if "ok" not in ev or any("diverged" in e for e in ev["ok"]["results"][0]):
+                        raise ToolError("crowd of contexts failed: %s" % json.dumps(ev)[:300])
+                for j, cmd in enumerate(lists[t]):
+                    ev = run(cmd)
+                    if strip(ev) != strip(base[t][j]):
+                        chk.violation("the result of %s (suite %s, mode %d) changes after %d other contexts were created and "
+                                      "dropped in the process" % (cmd["op"], lists[t][0]["suite"], lists[t][0]["mode"], 65536 - k),
+                                      {"kind": "history", "history": hist, "event": ev, "mismatch": "differs from the same call made alone",
+                                       "fingerprint": "c18-crowd-" + cmd["op"]})
+                        return False
+        chk.case(("crowd", 65535, 65534))
         chk.trace_ok()
         return True
     nl = len(lists)
